@@ -142,7 +142,7 @@ CURRENT_WRAPPER = None   # set by the runner while it handles a part that runs u
 def run_single(exe, seed, cfg=None, choices=None, default_choices=False, want_choices=False, want_trace=False, timeout=900, wrapper=None):
     """one run in a fresh process; returns a result dict (crash -> synthesized result)"""
     os.makedirs(TMP, exist_ok=True)
-    cmd = (wrapper or CURRENT_WRAPPER or []) + [exe, "--seed-start", str(seed), "--max-runs", "1", "--watchdog", str(WATCHDOG_SINGLE.get(os.path.basename(exe), 150) * (20 if (wrapper or CURRENT_WRAPPER) else 1))]
+    cmd = (wrapper or CURRENT_WRAPPER or []) + [exe, "--seed-start", str(seed), "--max-runs", "1", "--watchdog", str(WATCHDOG_SINGLE.get(os.path.basename(exe), 900 if (cfg and "big=1" in cfg) else 150) * (20 if (wrapper or CURRENT_WRAPPER) else 1))]
     if cfg: cmd += ["--cfg", cfg]
     cf = None
     if choices is not None:
